@@ -1503,3 +1503,44 @@ def c10_raise(ctx):
     else:
         out.append(bad(R, key, 'the scheduling loop after raising the maximum can stop while schedule_thread still succeeds', fn=fn.name))
     return out
+
+
+
+def c11_sleep(ctx):
+    """A pipe's poll function may answer "keep me, I am waiting" (true) only on a path on which somebody holds its waker: the input
+    stream returned Pending for a poll made with the pipe's waker, or the waker was parked in the back-pressure slot."""
+    F = ctx.F
+    out = []
+    R = 'ORD-C11-sleep'
+    g = cg(ctx)
+    for root in ('desync::pipe::pipe_in', 'desync::pipe::pipe'):
+        ks = [k for k in _children(ctx, root) if k.is_coroutine]
+        key = root.split('::')[-1] + '|sleep-only-when-registered'
+        if len(ks) != 1:
+            out.append(undecided(R, key, 'poll coroutine not found'))
+            continue
+        k = ks[0]
+        polls = [x for x in g.sites.get(k.name, []) if x.kind == 'poll' and 'poll_next' in (x.t['func'].get('fn') or '')]
+        if len(polls) != 1:
+            out.append(undecided(R, key, 'expected one poll of the input stream, found %d' % len(polls)))
+            continue
+        e = result_edges(k, polls[0].bb)
+        pending = edge_for(e, POLL_ENUM, 'Pending') if e else None
+        u = FieldUse(k, 'desync::pipe::PipeStreamCore')
+        parks = [bb for (bb, i, v) in u.assigns.get('backpressure_release_notify', []) if v[0] == 'agg' and v[2].endswith('Option::Some')]
+        trues = []
+        for bb, b in enumerate(k.blocks):
+            if b['cleanup']:
+                continue
+            for st_ in b['stmts']:
+                if st_['k'] == 'assign' and not st_['pl']['p'] and st_['pl']['l'] == 0 and st_['rv']['k'] == 'use' and st_['rv']['op']['k'] == 'const' and str(st_['rv']['op'].get('val')) == '1':
+                    trues.append(bb)
+        if not trues or pending is None:
+            out.append(undecided(R, key, 'shape not recognised (true results %d)' % len(trues)))
+            continue
+        badb = [b for b in trues if not (edom(k, pending, b) or any(dominates(k, pb, b) for pb in parks))]
+        if badb:
+            out.append(bad(R, key, 'the poll function answers "still waiting" on a path where nobody holds its waker (the input was not Pending and no back-pressure registration): the pipe is never polled again and the remaining items are lost', loc=k.loc(badb[0]), fn=k.name))
+        else:
+            out.append(ok(R, key, 'every "still waiting" result lies on the Pending edge of the input poll%s' % (' or after parking the waker in the back-pressure slot' if parks else ''), fn=k.name))
+    return out
